@@ -9,6 +9,7 @@ so bulk (count ≥ max) and chunk (bytes ≥ max) executors are instances.
 -/
 import GoZero.C11.Proofs
 import GoZero.C11.ProofsWait
+import GoZero.C11.ProofsWaitStep
 namespace GoZero.C11
 
 /-- tasks in the hands of goroutines (taken out of the container / commander, callback not ended yet) -/
@@ -71,37 +72,50 @@ theorem panic_loses_own_batch_only (cfg : Cfg) (s s' : St) (t : Nat)
 
 /-! ### Wait covers prior adds
 
-FULL STATEMENT (not proven yet — kept visible, not weakened silently):
+`th.snap` = the tasks accepted (`AddTask` done) before this goroutine called `Wait`; `.wUnbarrier` =
+`waitGroup.Wait()` has returned.  The proof is by the invariant `WInv` of ProofsWait.lean (wg = number of
+goroutines between wg.Add and wg.Done; inflight = number of handed-over batches not yet decremented; per Wait
+caller a phase inequality), which holds initially and is preserved by every row of the step table of the fixed
+code (ProofsWaitStep.lean: one lemma per row, `winv_step`).  The pinned (pre-fix) order violates the property
+(`pinned_wait_misses_handover`). -/
 
-    theorem wait_covers_prior_adds (cfg : Cfg) (hfix : cfg.fixed = true) (s : St) (h : Reachable cfg s)
-        (t : Nat) (th : Thread) (ht : s.thr[t]? = some th) (hpc : th.pc = .wUnbarrier) (x : Task) :
-        th.snap.count x ≤ s.finished.count x
+/-- the Wait invariant holds in every reachable configuration of the fixed code -/
+theorem wait_invariant_reachable (cfg : Cfg) (hfix : cfg.fixed = true) (s : St) (h : Reachable cfg s) : WInv s :=
+  winv_reachable hfix h
 
-(`th.snap` = the tasks accepted before this goroutine called `Wait`; `.wUnbarrier` = `waitGroup.Wait()` has
-returned.)  The proof is by the invariant `WInv` of ProofsWait.lean (wg = number of goroutines between
-wg.Add and wg.Done; inflight = number of handed-over batches not yet decremented; per Wait caller a phase
-inequality).  PROVEN below: `WInv` holds initially; `WInv` at the two decisive steps gives the property
-(`wait_spin_covers_partial`: once Wait has seen inflight ≤ 0 every prior task is finished or held by a
-goroutine that is counted in the wait group; `wait_covers_prior_adds_partial`: once it has then seen wg = 0
-every prior task is finished).  MISSING: `WInv` is preserved by every row of the step table — the generic
-update lemma `winv_upd` and 38 of the 48 row cases are closed; the rows aAdd, fRemove, fDone, wSpin, wWait and
-bConfirm still have open side goals in the proof script (lean/scratch/winv_step_unfinished.lean.txt).
-The runtime monitor checks this clause on every harness history, and the pinned (pre-fix) order is
-shown to violate it (`pinned_wait_misses_handover`). -/
+/-- **Wait covers prior adds** (fixed code, every schedule, any number of goroutines): when `Wait` has come back
+from `waitGroup.Wait()`, the callback of every task that was accepted before `Wait` was called has ended. -/
+theorem wait_covers_prior_adds (cfg : Cfg) (hfix : cfg.fixed = true) (s : St) (h : Reachable cfg s)
+    (t : Nat) (th : Thread) (ht : s.thr[t]? = some th) (hpc : th.pc = .wUnbarrier) (x : Task) :
+    th.snap.count x ≤ s.finished.count x :=
+  ((winv_reachable hfix h).ph t th ht x).2.2 (by simp [hpc, phase])
 
-theorem wait_invariant_initially (n : Nat) : WInv (init n) := winv_init n
-
-theorem wait_spin_covers_partial (s : St) (hw : WInv s) (hin : ¬ s.inflight > 0) (t : Nat) (th : Thread)
-    (ht : s.thr[t]? = some th) (hpc : th.pc = .wSpin) (x : Task) :
+/-- the two decisive steps on the way: once `Wait` has seen `inflight ≤ 0`, every prior task is finished or in
+the hands of a goroutine that is counted in the wait group … -/
+theorem wait_after_spin_covers (cfg : Cfg) (hfix : cfg.fixed = true) (s : St) (h : Reachable cfg s)
+    (t : Nat) (th : Thread) (ht : s.thr[t]? = some th) (hpc : th.pc = .wBarrier ∨ th.pc = .wWait) (x : Task) :
     th.snap.count x ≤ s.finished.count x + eHeld x s :=
-  spin_pass s hw hin t th ht hpc x
+  ((winv_reachable hfix h).ph t th ht x).2.1 (by rcases hpc with h | h <;> simp [h, phase])
 
-theorem wait_covers_prior_adds_partial (s : St) (hw : WInv s) (t : Nat) (th : Thread)
-    (ht : s.thr[t]? = some th) (hpc : th.pc = .wWait) (h0 : s.wg = 0) (x : Task) :
-    th.snap.count x ≤ s.finished.count x := by
-  have h2 := ((hw.ph t th ht) x).2.1 (by simp [hpc, phase])
-  have := wg_pass s hw h0 x
-  omega
+/-- … and the counters mean what the protocol needs: `wg` counts exactly the goroutines between `wg.Add(1)` and
+`wg.Done()`, `inflight` exactly the batches between `RemoveAll` in `addAndCheck` and the flusher's decrement. -/
+theorem counters_exact (cfg : Cfg) (hfix : cfg.fixed = true) (s : St) (h : Reachable cfg s) :
+    s.wg = nEntered s ∧ s.inflight = ((nLimbo s + cmd01 s : Nat) : Int) :=
+  ⟨(winv_reachable hfix h).wg, (winv_reachable hfix h).infl⟩
+
+/-- non-vacuity: on the fixed code a `Wait` does get to `.wUnbarrier` with a non-empty snapshot (caller 0 adds
+task 1, caller 1 calls Wait, flushes it itself, the callback returns, the spin and the wait group let it pass) -/
+def waitSchedule : List (Nat × Act) :=
+  [(0, .add 1), (0, .tau), (0, .tau), (0, .tau), (0, .tau), (0, .tau),
+   (1, .wait), (1, .tau), (1, .tau), (1, .tau), (1, .tau), (1, .tau), (1, .cbEnd false),
+   (1, .tau), (1, .tau), (1, .tau), (1, .tau)]
+
+example : ∃ s th, Reachable { full := bulkFull 2, fixed := true } s ∧ s.thr[1]? = some th ∧
+    th.pc = .wUnbarrier ∧ th.snap = [1] ∧ s.finished = [1] := by
+  have hr : ∃ s, run { full := bulkFull 2, fixed := true } (init 3) waitSchedule = some s ∧
+      ∃ th, s.thr[1]? = some th ∧ th.pc = .wUnbarrier ∧ th.snap = [1] ∧ s.finished = [1] := by decide
+  obtain ⟨s, h1, th, h2⟩ := hr
+  exact ⟨s, th, reachable_run (Reachable.init 3) _ h1, h2⟩
 
 /-- the schedule of the defect found on the unfixed code (replayed on the real code by the harness, section 0):
 caller 0 fills a batch (1,2) whose callback is still running in the flusher (goroutine 3), adds 3; caller 1
